@@ -44,7 +44,7 @@ def floatParams (old : Bool) (ps : PS) (c : Char) : Params :=
 def request (p : Params) (fprec : Nat) (fexp : Int) : Int × Int :=
   let base := p.base.natAbs
   if p.prec ≤ -1 then                                                                       -- :75
-    (if p.conv = 3 then (mpfSignificantDigits base fprec : Int) else p.prec, 0)             -- :78-83
+    (if p.conv = 3 then (MpfStr.maxDigits base fprec : Int) else p.prec, 0)             -- :78-83
   else if p.conv = 1 then                                                                   -- :88
     (p.prec, max (p.prec + 2 + fexp * (charsPerLimb base + (if fexp ≥ 0 then 1 else 0))) 1) -- :95-97
   else if p.conv = 2 then (p.prec, p.prec + 1)                                              -- :103
